@@ -1398,3 +1398,30 @@ func (e *absEnv) runFunc(f afunc, args []aval) (res aval, undecided string) {
 	}
 	return e.call(f.fn, args, f.free, 0), ""
 }
+
+// callMethod invokes the named method on an interface value through the evaluator (for oracles that model a library
+// routine calling back into module code, such as io.Copy writing to a module writer).
+func (e *absEnv) callMethod(prog *ssa.Program, recv aval, name string, args ...aval) (res aval, ok bool) {
+	ifc, isI := recv.(aiface)
+	if !isI {
+		return nil, false
+	}
+	sel := types.NewMethodSet(ifc.typ).Lookup(nil, name)
+	if sel == nil {
+		// unexported package not needed for exported method names; try the pointer type
+		sel = types.NewMethodSet(types.NewPointer(ifc.typ)).Lookup(nil, name)
+	}
+	if sel == nil {
+		return nil, false
+	}
+	m := prog.MethodValue(sel)
+	if m == nil || len(m.Blocks) == 0 {
+		return nil, false
+	}
+	defer func() {
+		if r := recover(); r != nil {
+			res, ok = nil, false
+		}
+	}()
+	return e.call(m, append([]aval{ifc.val}, args...), nil, 1), true
+}
